@@ -57,7 +57,8 @@ def c16_jobs(tier):
 
 
 def c14_jobs(tier):
-    return [sim("c14-push-faults", "c14", require_counters=["posts_observed", "delete_while_failing_checked", "rounds_against_closed_port", "answers.102", "answers.late90s-200", "answers.reset"])]
+    return [sim("c14-push-faults", "c14", require_counters=["posts_observed", "delete_while_failing_checked", "rounds_against_closed_port", "answers.102", "answers.late90s-200", "answers.reset"]),
+            sim("c14-lifecycle", "c14r", require_counters=["names_reused", "posts_observed", "rejected_creates", "pull_only_read_back"])]
 
 
 def c02_jobs(tier):
@@ -88,7 +89,8 @@ def c05_jobs(tier):
 
 
 def c17_jobs(tier):
-    jobs = [sim("c17-hostile", "c17", require_counters=["hostile_requests_answered"])]
+    jobs = [sim("c17-hostile", "c17", require_counters=["hostile_requests_answered"]),
+            sim("c17-lifecycle", "c14r", require_counters=["rejected_creates"], require_nontrivial=False)]
     if tier == "thorough":
         jobs.append(sim("c17-hostile-h2", "c17", transport="h2", episodes=8000))
         jobs.append(asan_mt("c17-asan-mt", "c17", crash_property="C17"))
